@@ -468,6 +468,70 @@ def constraint_stage(chk, M):
         except pydantic.ValidationError:
             continue
         chk.monitor_failure("constraints", {"cls": "TlTrack", "field": "tlid"}, f"TlTrack(tlid={tlid}) accepted", {"tlid": tlid})
+    constructor_paths(chk, M)
+
+
+def constructor_paths(chk, M):
+    """Every public way Mopidy offers to build a model - not only the class constructor: the
+    Ref.album/artist/directory/playlist/track helpers, TlTrack's positional form, model_validate,
+    model_validate_json and replace().  Invalid field values must be rejected on each path (if an
+    instance comes back, it violates a constraint and its own JSON form is refused by the decoder);
+    valid values must give the same model as the class constructor."""
+    import pydantic
+
+    def attempt(path, cls, build_fn, valid, detail, reference=None):
+        chk.count(1, nontrivial_key=f"ctor:{path}:{json.dumps(detail, sort_keys=True, default=str)}")
+        chk.dist(f"constructor_path:{path}:{'valid' if valid else 'invalid'}")
+        case = {"path": path, "cls": cls, "arguments": detail}
+        try:
+            inst = build_fn()
+        except (pydantic.ValidationError, TypeError):
+            if valid:
+                chk.monitor_failure("constraints", {"cls": cls, "path": path, "what": "valid_value_rejected"},
+                                    f"{path} rejected valid field values", case)
+            return
+        if valid:
+            if reference is not None and not (inst == reference and hash(inst) == hash(reference) and type(inst) is type(reference)):
+                chk.monitor_failure("value_semantics", {"cls": cls, "path": path, "what": "differs_from_constructor"},
+                                    f"{path} built a model that differs from the class constructor's", case)
+            return
+        try:
+            form = inst.serialize()
+            decodes = type(inst).model_validate(form) == inst
+        except Exception:  # noqa: BLE001
+            decodes = False
+        chk.monitor_failure("constraints", {"cls": cls, "path": path},
+                            f"{path} accepted field values that violate the model's constraints "
+                            f"(its JSON form {'decodes' if decodes else 'is refused by the decoder'})", case)
+
+    bad_ref = [{"uri": None}, {"uri": 123}, {"uri": []}, {"uri": "u", "name": 5}, {"uri": "u", "name": []}, {"uri": {"a": 1}}, {},
+               {"uri": "u", "junk": 1}]
+    good_ref = [{"uri": "u"}, {"uri": "", "name": None}, {"uri": "dummy:é", "name": "n"}]
+    for helper in ("album", "artist", "directory", "playlist", "track"):
+        for kw in bad_ref:
+            attempt(f"Ref.{helper}", "Ref", lambda kw=kw, h=helper: getattr(M.Ref, h)(**kw), False, kw)
+        for kw in good_ref:
+            attempt(f"Ref.{helper}", "Ref", lambda kw=kw, h=helper: getattr(M.Ref, h)(**kw), True, kw,
+                    reference=M.Ref(type=helper, **kw))
+    track = M.Track(name="t")
+    for args in ((0, track), (-1, track), ("x", track), (1, 5), (1, None), (1, {"junk": 1}), (None, track), (1,), ()):
+        attempt("TlTrack(positional)", "TlTrack", lambda a=args: M.TlTrack(*a), False, [str(a)[:40] for a in args])
+    attempt("TlTrack(positional)", "TlTrack", lambda: M.TlTrack(3, track), True, [3, "Track"], reference=M.TlTrack(tlid=3, track=track))
+    attempt("TlTrack(positional)", "TlTrack", lambda: M.TlTrack(3, {"name": "t"}), True, [3, {"name": "t"}],
+            reference=M.TlTrack(tlid=3, track=track))
+    per_class_bad = {"Ref": {"uri": 5, "type": "track"}, "Image": {"uri": "u", "width": -1}, "Artist": {"name": 5},
+                     "Album": {"num_tracks": -1}, "Track": {"bitrate": -1}, "TlTrack": {"tlid": 0, "track": {}},
+                     "Playlist": {"last_modified": -1}, "SearchResult": {"tracks": [5]}}
+    for cls, kw in per_class_bad.items():
+        c = getattr(M, cls)
+        attempt(f"{cls}.model_validate", cls, lambda c=c, kw=kw: c.model_validate(kw), False, kw)
+        attempt(f"{cls}.model_validate_json", cls, lambda c=c, kw=kw: c.model_validate_json(json.dumps(kw)), False, kw)
+        base = build(M, FULL_SPECS[cls])
+        bad_field, bad_value = {"Ref": ("uri", 5), "Image": ("width", -1), "Artist": ("name", 5), "Album": ("num_tracks", -1),
+                                "Track": ("bitrate", -1), "TlTrack": ("tlid", 0), "Playlist": ("last_modified", -1),
+                                "SearchResult": ("tracks", [5])}[cls]
+        attempt(f"{cls}.replace", cls, lambda b=base, k=bad_field, v=bad_value: b.replace(**{k: v}), False, {bad_field: bad_value})
+        attempt(f"{cls}.replace", cls, lambda b=base: b.replace(), True, {}, reference=base)
 
 
 # ----------------------------------------------------------------------------
